@@ -1,10 +1,13 @@
 import Pyunicorn.Lemmas.Access
+import Pyunicorn.Lemmas.AccessX
 import Pyunicorn.Lemmas.WhileSafe
 import Pyunicorn.Lemmas.Binary64
 import Pyunicorn.Lemmas.LineIdx
+import Pyunicorn.Lemmas.NsiIdx
 import Pyunicorn.Generated.StructC20
 import Pyunicorn.Generated.StructC20Pyx
 import Pyunicorn.Generated.StructC20Py
+import Pyunicorn.Generated.StructC20Run
 /-!
 # C20 — compiled kernels never touch memory outside their arrays
 
@@ -1540,3 +1543,491 @@ example : outcome { ldDiag with ij2I := fun i j N => N - i + j + 1 }
     3 0 ⟨3, 3, 0, 1, 0, 3⟩ [[1, 1, 1], [1, 1, 1], [1, 1, 1]] [] 0 [] = none := by decide +kernel
 
 end Pyunicorn.LineIdx
+
+/-! # Round 5: `Surrogates.test_mutual_information` from the two arrays down to the kernel, over
+IEEE data (NaN, `±inf`, finite)
+
+Round 3 put infinities into the *symbol* (`symbolX_in_range`); the wrapper-level theorem
+`tmiCall_rejects_or_safe` stayed on `Option Rat` data (NaN | finite) and the claim for infinite data
+was "put together by hand".  `tmiCallX` models the wrapper as it is written — NaN-propagating
+`min` / `max` of each array, `np.min` / `np.max` of the two, `1. / (range_max - range_min)` with
+Cython's ZeroDivisionError — reading *which* extremes enter from the generated tables
+(`tmi_range_min`, `tmi_range_max`, `tmi_scaling`; translate/c20_py.py). -/
+namespace Pyunicorn.Access
+open Pyunicorn.Generated.StructC20Py
+
+/-- the conversion executed for a sample (to a signed integer of any width `bits`) is defined when the
+scaling is not negative and `range_min` is a lower bound of the sample (or one of them is NaN) -/
+theorem convOKX_of_bits (bits : Nat) (s m x : XR) (nb : Int) (hnb : 1 ≤ nb)
+    (hb : nb ≤ (2 : Int) ^ (bits - 1)) (hs : s.notNeg = true)
+    (hmx : m.isNan = true ∨ x.isNan = true ∨ XR.le m x = true) : convOKX bits s m nb x = true := by
+  have hr : (XR.mul s (XR.sub x m)).notNeg = true :=
+    XR.mul_notNeg _ _ hs (XR.sub_notNeg m x hmx)
+  unfold convOKX
+  generalize XR.mul s (XR.sub x m) = r at hr
+  cases r with
+  | nan => rfl
+  | pinf => rfl
+  | ninf => simp [XR.notNeg] at hr
+  | fin q =>
+    have hq : 0 ≤ q := by simpa [XR.notNeg] using hr
+    simp only
+    split
+    · rename_i hlt
+      have hnbpos : (0 : Rat) < (nb : Rat) := by exact_mod_cast (by omega : (0:Int) < nb)
+      apply castDefined_of_bounds (nb := nb) _ _ hb
+      · exact Rat.mul_nonneg hq (Rat.le_of_lt hnbpos)
+      · calc q * (nb : Rat) < 1 * (nb : Rat) := Rat.mul_lt_mul_of_pos_right hlt hnbpos
+          _ = nb := by simp
+    · rfl
+
+/-- the conversion executed for a sample is defined when the scaling is not negative and `range_min`
+is a lower bound of the sample (or one of them is NaN) -/
+theorem convOKX_of (s m x : XR) (nb : Int) (hnb : 1 ≤ nb) (hb : nb ≤ (2 : Int) ^ (32 - 1))
+    (hs : s.notNeg = true)
+    (hmx : m.isNan = true ∨ x.isNan = true ∨ XR.le m x = true) : convOKX 32 s m nb x = true :=
+  convOKX_of_bits 32 s m x nb hnb hb hs hmx
+
+/-- **The kernel on IEEE data, for every scaling and range_min of the right kind.**  For all shapes,
+`1 ≤ n_bins < 2^31`, every `scaling` that is not negative (`≥ 0`, `+inf`, NaN — this covers
+`1/(max-min)` computed exactly as well as its floating-point outcomes `0` after overflow of the range
+and `+inf` for a subnormal range) and every `range_min` that is NaN or a lower bound of all non-NaN
+samples of both arrays: no undefined float→int conversion is executed and every access of
+`_test_mutual_information_fast` lies inside the arrays the wrapper allocates. -/
+theorem tmiKernelX_safe (s m : XR) (N T : Nat) (nb : Int) (dO dS : XData)
+    (hnb : 1 ≤ nb) (hbig : nb < (2 : Int) ^ 31) (hs : s.notNeg = true)
+    (hm : m.isNan = true ∨ ∀ x, (x ∈ dO.flatten ∨ x ∈ dS.flatten) → x.isNan = true ∨ XR.le m x = true) :
+    tmiKernelX s m N T nb dO dS = .safe := by
+  have hb32 : nb ≤ (2 : Int) ^ (32 - 1) := by
+    have : (2 : Int) ^ (32 - 1) = (2 : Int) ^ 31 := by decide
+    omega
+  have hcast : ((nb.toNat : Nat) : Int) = nb := Int.toNat_of_nonneg (by omega)
+  have hmx : ∀ (d : XData), (∀ x ∈ d.flatten, x ∈ dO.flatten ∨ x ∈ dS.flatten) → ∀ i k,
+      m.isNan = true ∨ (d.at i k).isNan = true ∨ XR.le m (d.at i k) = true := by
+    intro d hd i k
+    rcases hm with h | h
+    · exact Or.inl h
+    · rcases XData.at_mem d i k with hn | hmem
+      · exact Or.inr (Or.inl hn)
+      · rcases h _ (hd _ hmem) with h' | h'
+        · exact Or.inr (Or.inl h')
+        · exact Or.inr (Or.inr h')
+  have inO : ∀ x ∈ dO.flatten, x ∈ dO.flatten ∨ x ∈ dS.flatten := fun _ h => Or.inl h
+  have inS : ∀ x ∈ dS.flatten, x ∈ dO.flatten ∨ x ∈ dS.flatten := fun _ h => Or.inr h
+  have conv : ∀ (d : XData), (∀ x ∈ d.flatten, x ∈ dO.flatten ∨ x ∈ dS.flatten) →
+      convsOKX 32 N T s m nb d.at = true := by
+    intro d hd
+    simp only [convsOKX, List.all_eq_true, List.mem_range]
+    intro i _ k _
+    exact convOKX_of s m _ nb hnb hb32 hs (hmx d hd i k)
+  have key : ∀ (d : XData), (∀ x ∈ d.flatten, x ∈ dO.flatten ∨ x ∈ dS.flatten) → ∀ i k,
+      0 ≤ (symbolX s m nb (d.at i k)).getD 0
+      ∧ (symbolX s m nb (d.at i k)).getD 0 < ((nb.toNat : Nat) : Int) := by
+    intro d hd i k
+    obtain ⟨v, hv, h0, h1⟩ := symbolX_in_range s m (d.at i k) nb hnb hs (hmx d hd i k)
+    rw [hv, hcast]
+    exact ⟨h0, h1⟩
+  unfold tmiKernelX
+  rw [conv dO inO, conv dS inS]
+  simp only [Bool.and_self, if_true]
+  exact verdictOf_ne_oob (tmi_in_bounds N T nb.toNat _ _
+    (fun i k _ _ => key dO inO i k) (fun i k _ _ => key dS inS i k))
+
+/-- what the generated range terms evaluate to -/
+theorem rangeFromX_generated (dO dS : XData) :
+    rangeFromX dO dS tmi_range_min tmi_range_max
+      = some (XR.min2 (xrMin dO.flatten) (xrMin dS.flatten),
+              XR.max2 (xrMax dO.flatten) (xrMax dS.flatten)) := by
+  rfl
+
+/-- the minimum over both arrays is NaN or a lower bound of every sample of both -/
+theorem min2_xrMin_le (a b : List XR) :
+    (XR.min2 (xrMin a) (xrMin b)).isNan = true ∨
+      ∀ x, (x ∈ a ∨ x ∈ b) → XR.le (XR.min2 (xrMin a) (xrMin b)) x = true := by
+  rcases XR.min2_spec (xrMin a) (xrMin b) with h | ⟨ha, hb⟩
+  · exact Or.inl h
+  · right
+    intro x hx
+    rcases hx with hx | hx
+    · rcases xrMin_le a with hn | hl
+      · rw [(XR.le_notNan ha).2] at hn; cases hn
+      · exact XR.le_trans' ha (hl x hx)
+    · rcases xrMin_le b with hn | hl
+      · rw [(XR.le_notNan hb).2] at hn; cases hn
+      · exact XR.le_trans' hb (hl x hx)
+
+/-- `range_min ≤ range_max` unless one of them is NaN -/
+theorem range_ordered (a b : List XR) :
+    (XR.min2 (xrMin a) (xrMin b)).isNan = true ∨ (XR.max2 (xrMax a) (xrMax b)).isNan = true
+    ∨ XR.le (XR.min2 (xrMin a) (xrMin b)) (XR.max2 (xrMax a) (xrMax b)) = true := by
+  rcases XR.min2_spec (xrMin a) (xrMin b) with h | ⟨ha, _⟩
+  · exact Or.inl h
+  rcases XR.max2_spec (xrMax a) (xrMax b) with h | ⟨hA, _⟩
+  · exact Or.inr (Or.inl h)
+  right; right
+  -- `a` is not empty, as its minimum is not NaN
+  have hne : a ≠ [] := by
+    intro e; subst e
+    have := (XR.le_notNan ha).2
+    rw [xrMin_nil] at this; cases this
+  obtain ⟨x, hx⟩ := List.exists_mem_of_ne_nil _ hne
+  rcases xrMin_le a with hn | hl
+  · rw [(XR.le_notNan ha).2] at hn; cases hn
+  rcases xrMax_ge a with hn | hg
+  · rw [(XR.le_notNan hA).1] at hn; cases hn
+  exact XR.le_trans' (XR.le_trans' ha (hl x hx)) (XR.le_trans' (hg x hx) hA)
+
+/-- **`Surrogates.test_mutual_information` is safe or raises for every pair of shapes, every
+`n_bins ∈ ℤ` and arrays holding any IEEE values** — NaN, `+inf`, `-inf`, finite, in any mixture —
+with the range taken from where the current source takes it (the generated terms).  No hypothesis
+left: `range_min` is NaN or a lower bound of both arrays (`min2_xrMin_le`), `range_max - range_min`
+is not negative (`range_ordered`, `XR.sub_notNeg`), so its reciprocal is not negative or the division
+raises (`XR.recip_notNeg`), and `tmiKernelX_safe` applies. -/
+theorem tmiCallX_rejects_or_safe (N T N2 T2 : Nat) (nb : Int) (dO dS : XData) :
+    tmiCallX tmi_range_min tmi_range_max tmi_scaling N T N2 T2 nb dO dS ≠ .oob := by
+  unfold tmiCallX
+  split
+  · simp
+  rename_i hnb
+  split
+  · simp
+  split
+  · simp
+  rename_i hbig
+  split
+  · simp
+  rw [if_neg (by decide)]
+  rw [rangeFromX_generated]
+  simp only
+  have hd : (XR.sub (XR.max2 (xrMax dO.flatten) (xrMax dS.flatten))
+      (XR.min2 (xrMin dO.flatten) (xrMin dS.flatten))).notNeg = true :=
+    XR.sub_notNeg _ _ (range_ordered dO.flatten dS.flatten)
+  split
+  · simp
+  · rename_i s hs
+    rw [tmiKernelX_safe _ _ N T nb dO dS (by omega) (by omega) (XR.recip_notNeg hd hs)]
+    · simp
+    · rcases min2_xrMin_le dO.flatten dS.flatten with h | h
+      · exact Or.inl h
+      · exact Or.inr (fun x hx => Or.inr (h x hx))
+
+/-- non-vacuity and sharpness.  (1) original `[0, +inf]`, surrogates `[-inf, 1]`: `range_min = -inf`,
+`range_max = +inf`, `scaling = 1/inf = 0`, every rescaled value is `0·inf = NaN` — safe; (2) the same
+with a NaN: range and scaling NaN — safe; (3) all `+inf`: `inf - inf = NaN` — safe; (4) constant data:
+ZeroDivisionError; (5) a `range_min` that leaves the surrogates' minimum out (the shape of seeded
+change C20-5) on finite data: a negative bin number — `oob`; (6) a `range_min` taken from the original
+only, surrogates holding `-inf`: `range_min = 0`, `scaling = 1`, the sample `-inf` reaches `(int)` as
+`-inf` — undefined conversion, `oob`; (7) the same at the kernel. -/
+theorem tmiCallX_witness :
+    tmiCallX tmi_range_min tmi_range_max tmi_scaling 1 2 1 2 4
+        [[.fin 0, .pinf]] [[.ninf, .fin 1]] = .safe
+    ∧ tmiCallX tmi_range_min tmi_range_max tmi_scaling 1 2 1 2 4
+        [[.fin 0, .fin 1]] [[.ninf, .nan]] = .safe
+    ∧ tmiCallX tmi_range_min tmi_range_max tmi_scaling 1 2 1 2 4
+        [[.pinf, .pinf]] [[.pinf, .pinf]] = .safe
+    ∧ tmiCallX tmi_range_min tmi_range_max tmi_scaling 1 2 1 2 4
+        [[.fin 3, .fin 3]] [[.fin 3, .fin 3]] = .raise
+    ∧ tmiCallX ("np.min", [("original_data", "min"), ("surrogates", "max")]) tmi_range_max tmi_scaling
+        1 2 1 2 4 [[.fin 0, .fin 1]] [[.fin (-2), .fin 1]] = .oob
+    ∧ tmiCallX ("np.min", [("original_data", "min"), ("original_data", "min")]) tmi_range_max tmi_scaling
+        1 2 1 2 4 [[.fin 0, .fin 1]] [[.ninf, .fin 1]] = .oob
+    ∧ tmiKernelX (.fin 1) (.fin 0) 1 2 4 [[.fin 0, .fin 1]] [[.ninf, .fin 1]] = .oob := by
+  decide +kernel
+
+end Pyunicorn.Access
+
+/-! ## Round 5, second part: the IEEE model restricted to NaN | finite data is the round-1 model,
+and the range "over both arrays" is what the source's two-step computation yields -/
+namespace Pyunicorn.Access
+open Pyunicorn.Generated.StructC20Py
+
+/-- for non-empty arrays the range the wrapper computes from the generated terms
+(`np.min((original_data.min(), surrogates.min()))`, …) is the minimum / maximum over the
+concatenation of both arrays — for **all** data (round 4: shown on witness data only) -/
+theorem rangeFrom_generated (dO dS : Data) (hO : dO.flat ≠ []) (hS : dS.flat ≠ []) :
+    rangeFrom dO dS tmi_range_min.2 tmi_range_max.2
+      = (optMin (dO.flat ++ dS.flat), optMax (dO.flat ++ dS.flat)) := by
+  rw [optMin_append _ _ hO hS, optMax_append _ _ hO hS]
+  rfl
+
+/-- `tmiCall` is the kernel verdict for the range read off the generated terms (after the wrapper's
+rejections) — `tmiCall_eq_kernelVerdict` with the source's own range computation in place of
+"minimum over both arrays" -/
+theorem tmiCall_range_from_source (N T : Nat) (nb : Int) (dO dS : Data) (h1 : 1 ≤ nb)
+    (h2 : nb < (2 : Int) ^ 31) (h3 : N * T ≠ 0) (hO : dO.flat ≠ []) (hS : dS.flat ≠ []) :
+    tmiCall N T N T nb dO dS
+      = tmiKernelVerdict (rangeFrom dO dS tmi_range_min.2 tmi_range_max.2).1
+          (rangeFrom dO dS tmi_range_min.2 tmi_range_max.2).2 N T nb dO dS := by
+  rw [rangeFrom_generated dO dS hO hS]
+  exact tmiCall_eq_kernelVerdict N T nb dO dS h1 h2 h3
+
+/-- **`tmiCallX` on arrays without infinities is `tmiCall`** (all shapes, all `n_bins`, all NaN |
+finite data in non-empty arrays), with the range terms and the scaling expression of the current
+source.  So the round-1 theorem `tmiCall_rejects_or_safe` is the special case of
+`tmiCallX_rejects_or_safe`, and every correspondence run of `call tmi` also ties `tmiCallX`. -/
+theorem tmiCallX_restricts_to_tmiCall (N T N2 T2 : Nat) (nb : Int) (dO dS : Data)
+    (hO : dO.flat ≠ []) (hS : dS.flat ≠ []) :
+    tmiCallX tmi_range_min tmi_range_max tmi_scaling N T N2 T2 nb dO.toX dS.toX
+      = tmiCall N T N2 T2 nb dO dS :=
+  tmiCallX_toX tmi_range_min tmi_range_max rfl rfl N T N2 T2 nb dO dS hO hS
+
+example : tmiCallX tmi_range_min tmi_range_max tmi_scaling 1 2 1 2 2
+    (Data.toX [[some 0, some 1]]) (Data.toX [[some 1, none]]) = .safe := by decide +kernel
+
+end Pyunicorn.Access
+
+/-! ## Round 5, third part: the climate kernel on IEEE data; the two surrogate tests with the shape
+tests and size sources of the current source as parameters -/
+namespace Pyunicorn.Access
+open Pyunicorn.Generated.StructC20Py
+
+/-- **`_mutual_information` (climate) on IEEE data**: for all shapes, `1 ≤ n_bins < 2^31`, every
+`float scaling` that is not negative and every `float range_min` that is NaN or a lower bound of all
+non-NaN samples: every `(long)` conversion is defined and every access lies inside the arrays the
+wrapper allocates.  (Tied by the real traces `tracex mi` on data with `±inf` / NaN.) -/
+theorem miKernelX_safe (s m : XR) (N T : Nat) (nb : Int) (d : XData)
+    (hnb : 1 ≤ nb) (hbig : nb < (2 : Int) ^ 31) (hs : s.notNeg = true)
+    (hm : m.isNan = true ∨ ∀ x ∈ d.flatten, x.isNan = true ∨ XR.le m x = true) :
+    miKernelX s m N T nb d = .safe := by
+  have hb64 : nb ≤ (2 : Int) ^ (64 - 1) := by
+    have : (2 : Int) ^ 31 ≤ (2 : Int) ^ (64 - 1) := by decide
+    omega
+  have hcast : ((nb.toNat : Nat) : Int) = nb := Int.toNat_of_nonneg (by omega)
+  have hmx : ∀ i k, m.isNan = true ∨ (d.at i k).isNan = true ∨ XR.le m (d.at i k) = true := by
+    intro i k
+    rcases hm with h | h
+    · exact Or.inl h
+    · rcases XData.at_mem d i k with hn | hmem
+      · exact Or.inr (Or.inl hn)
+      · rcases h _ hmem with h' | h'
+        · exact Or.inr (Or.inl h')
+        · exact Or.inr (Or.inr h')
+  have conv : convsOKX 64 N T s m nb d.at = true := by
+    simp only [convsOKX, List.all_eq_true, List.mem_range]
+    intro i _ k _
+    exact convOKX_of_bits 64 s m _ nb hnb hb64 hs (hmx i k)
+  unfold miKernelX
+  rw [conv]
+  simp only [if_true]
+  apply verdictOf_ne_oob
+  apply mi_in_bounds
+  intro i k _ _
+  obtain ⟨v, hv, h0, h1⟩ := symbolX_in_range s m (d.at i k) nb hnb hs (hmx i k)
+  rw [hv, hcast]
+  exact ⟨h0, h1⟩
+
+example : miKernelX (.fin 0) .ninf 2 2 4 [[.fin 0, .pinf], [.ninf, .nan]] = .safe
+    ∧ miKernelX (.fin 1) (.fin 0) 2 2 4 [[.fin 0, .pinf], [.ninf, .nan]] = .oob := by decide +kernel
+
+/-- with the shape test and size sources of the current source, `pearsonObjCall` is `pearsonCall` -/
+theorem pearsonObjCall_generated (N T N2 T2 : Nat) :
+    pearsonObjCall pearson_pysizes pearson_pychecks N T N2 T2 = pearsonCall N T N2 T2 := by
+  unfold pearsonObjCall pearsonCall pyFront
+  by_cases h : (N2, T2) = (N, T)
+  · obtain ⟨rfl, rfl⟩ := Prod.mk.inj h
+    simp [pearson_pychecks, pearson_pysizes, resolveSize, pearsonSizes]
+  · have h' : ¬ (N2 = N ∧ T2 = T) := fun ⟨a, b⟩ => h (by rw [a, b])
+    simp [pearson_pychecks, h, h']
+
+/-- `Surrogates.test_pearson_correlation`, shape test and size sources as generated: safe or raises
+for all shapes of both arrays -/
+theorem pearsonObjCall_rejects_or_safe (N T N2 T2 : Nat) :
+    pearsonObjCall pearson_pysizes pearson_pychecks N T N2 T2 ≠ .oob := by
+  rw [pearsonObjCall_generated]; exact pearsonCall_rejects_or_safe N T N2 T2
+
+/-- a method that takes the sizes from the surrogates and tests nothing (the core of seeded change
+C20-8) reads past a shorter original; one that takes them from the original and tests nothing reads
+past shorter surrogates (the pinned defect) -/
+theorem pearsonObjCall_witness :
+    pearsonObjCall [("N", "arr", "surrogates.0", 1, 0), ("n_time", "arr", "surrogates.1", 1, 1)] []
+        3 5 3 9 = .oob
+    ∧ pearsonObjCall pearson_pysizes [] 3 5 2 3 = .oob
+    ∧ pearsonObjCall pearson_pysizes pearson_pychecks 3 5 3 9 = .raise
+    ∧ pearsonObjCall pearson_pysizes pearson_pychecks 3 5 3 5 = .safe := by decide +kernel
+
+/-- **`Surrogates.test_mutual_information` with every part the translator reads as a parameter**
+(shape test, size sources, range terms, scaling expression — all as they are in the current
+source): safe or raises for all shapes of both arrays, all `n_bins ∈ ℤ`, all IEEE data -/
+theorem tmiObjCallX_rejects_or_safe (N T N2 T2 : Nat) (nb : Int) (dO dS : XData) :
+    tmiObjCallX tmi_pysizes tmi_pychecks tmi_range_min tmi_range_max tmi_scaling N T N2 T2 nb dO dS
+      ≠ .oob := by
+  unfold tmiObjCallX
+  split
+  · simp
+  by_cases h : (N2, T2) = (N, T)
+  · obtain ⟨rfl, rfl⟩ := Prod.mk.inj h
+    have : pyFront tmi_pysizes tmi_pychecks "N" "n_time" [[N2, T2], [N2, T2]] = .sizes N2 T2 := by
+      simp [pyFront, tmi_pychecks, tmi_pysizes, resolveSize]
+    rw [this]
+    simp only [and_self, if_true]
+    exact tmiCallX_rejects_or_safe N2 T2 N2 T2 nb dO dS
+  · have h' : ¬ (N2 = N ∧ T2 = T) := fun ⟨a, b⟩ => h (by rw [a, b])
+    have : pyFront tmi_pysizes tmi_pychecks "N" "n_time" [[N, T], [N2, T2]] = .raise := by
+      simp [pyFront, tmi_pychecks, h']
+    rw [this]
+    simp
+
+/-- sharpness: without the shape test, or with the sizes taken from the longer surrogates, the
+kernel leaves the shorter array -/
+theorem tmiObjCallX_witness :
+    tmiObjCallX tmi_pysizes [] tmi_range_min tmi_range_max tmi_scaling 1 4 1 2 2
+        [[.fin 0, .fin 1, .pinf, .fin 1]] [[.fin 0, .ninf]] = .oob
+    ∧ tmiObjCallX [("N", "arr", "surrogates.0", 1, 0), ("n_time", "arr", "surrogates.1", 1, 1)] []
+        tmi_range_min tmi_range_max tmi_scaling 1 2 1 4 2
+        [[.fin 0, .fin 1]] [[.fin 0, .fin 1, .nan, .fin 1]] = .oob
+    ∧ tmiObjCallX tmi_pysizes tmi_pychecks tmi_range_min tmi_range_max tmi_scaling 1 4 1 2 2
+        [[.fin 0, .fin 1, .pinf, .fin 1]] [[.fin 0, .ninf]] = .raise
+    ∧ tmiObjCallX tmi_pysizes tmi_pychecks tmi_range_min tmi_range_max tmi_scaling 1 2 1 2 2
+        [[.fin 0, .pinf]] [[.fin 0, .ninf]] = .safe := by decide +kernel
+
+end Pyunicorn.Access
+
+/-! # Round 5: the pointer walks of the two mutual-information routines, resolved
+
+`Generated/StructC20Run.lean` (translate/c20_crun.py, regenerated on every run) executes the
+statement tree of `_mutual_information` and `_test_mutual_information_fast` symbolically: running
+integer offsets (`in_time += n_time` at the end of the `i` loop) and running pointers
+(`p_original++` at the end of the `k` loop, `p_mi2 += N`) are induction variables of the loop whose
+body they close, so every pointer formation `p = a + e` and every dereference `*p` becomes
+`a[closed-form index]`; a bin number read from memory inside an offset (`*p_symbolic`) is a free
+parameter.  Rounds 2–4 listed these formations as "running" and left them to the trace model and
+T1; now they are in the static tie too. -/
+namespace Pyunicorn.Access
+open Pyunicorn.Generated.StructC20 Pyunicorn.Generated.StructC20Run
+
+/-- element counts of the arrays of `_test_mutual_information_fast` as the wrapper allocates them -/
+def tmiRunCnt (N n_time n_bins : Int) : String → Int
+  | "original_data" | "surrogates" | "symbolic_original" | "symbolic_surrogates" => N * n_time
+  | "hist_original" | "hist_surrogates" => N * n_bins
+  | "hist2d" => n_bins * n_bins
+  | "mi" => N * N
+  | _ => 0
+
+/-- **every pointer formed and every dereference in the current text of
+`_test_mutual_information_fast`** — the walks `p++` / `in_time += n_time` included — is inside its
+array (a formed pointer: at most one past the end), for all `N`, `n_time`, `n_bins ≥ 0`, all values
+of the loop variables in their ranges and all stored bin numbers in `[0, n_bins)` -/
+theorem tmi_run_sites_fine (N n_time n_bins i k j l m sO sS : Int) (hT : 0 ≤ n_time)
+    (hB : 0 ≤ n_bins) (hO : 0 ≤ sO ∧ sO < n_bins) (hS : 0 ≤ sS ∧ sS < n_bins) :
+    ∀ s ∈ tmi_run_sites N n_time n_bins i k j l m sO sS, s.guard →
+      siteFine s (tmiRunCnt N n_time n_bins s.arr) := by
+  have r1 := @row2 i N N; have r2 := @row2 i N n_time; have r3 := @row2 j N n_time
+  have r4 := @row2 i N n_bins; have r5 := @row2 j N n_bins; have r6 := @row2 l n_bins n_bins
+  have r7 := @row2 sO n_bins n_bins
+  simp only [tmi_run_sites, List.forall_mem_cons, List.not_mem_nil, false_imp_iff,
+    implies_true, and_true, tmiRunCnt]
+  (with_reducible and_intros) <;> site_bounds
+
+def miRunCnt (n_samples N n_bins : Int) : String → Int
+  | "anomaly" | "symbolic" => N * n_samples
+  | "hist" => N * n_bins
+  | "hist2d" => n_bins * n_bins
+  | "mi" => N * N
+  | _ => 0
+
+/-- the same for `_mutual_information` (climate): `p_mi2 = mi + i; p_mi2 += N` walks a column
+(`mi[i + j·N]`, `j ≤ i`), `ln_bins += n_bins` the rows of `hist2d` -/
+theorem mi_run_sites_fine (n_samples N n_bins i k j l m s s1 s2 : Int) (hT : 0 ≤ n_samples)
+    (hB : 0 ≤ n_bins) (h0 : 0 ≤ s ∧ s < n_bins) (h1 : 0 ≤ s1 ∧ s1 < n_bins)
+    (h2 : 0 ≤ s2 ∧ s2 < n_bins) :
+    ∀ x ∈ mi_run_sites n_samples N n_bins i k j l m s s1 s2, x.guard →
+      siteFine x (miRunCnt n_samples N n_bins x.arr) := by
+  have r1 := @row2 i N N; have r2 := @row2 i N n_samples; have r3 := @row2 j N n_samples
+  have r4 := @row2 i N n_bins; have r5 := @row2 j N n_bins; have r6 := @row2 l n_bins n_bins
+  have r7 := @row2 s1 n_bins n_bins; have r8 := @row2 j N N
+  simp only [mi_run_sites, List.forall_mem_cons, List.not_mem_nil, false_imp_iff,
+    implies_true, and_true, miRunCnt]
+  (with_reducible and_intros) <;> site_bounds
+
+/-- the element counts used above are the allocations of the wrappers (generated `…_allocs`) and
+the shapes of the arrays they pass -/
+theorem run_counts_are_allocations (N T nb : Nat) :
+    (tmi_allocs N T nb).map (fun a => (a.1, (a.2.1 : Int)))
+      = [("symbolic_original", tmiRunCnt N T nb "symbolic_original"),
+         ("symbolic_surrogates", tmiRunCnt N T nb "symbolic_surrogates"),
+         ("hist_original", tmiRunCnt N T nb "hist_original"),
+         ("hist_surrogates", tmiRunCnt N T nb "hist_surrogates"),
+         ("hist2d", tmiRunCnt N T nb "hist2d"), ("mi", tmiRunCnt N T nb "mi")]
+    ∧ (mi_allocs T N nb).map (fun a => (a.1, (a.2.1 : Int)))
+      = [("symbolic", miRunCnt T N nb "symbolic"), ("hist", miRunCnt T N nb "hist"),
+         ("hist2d", miRunCnt T N nb "hist2d"), ("mi", miRunCnt T N nb "mi")] := by
+  simp [tmi_allocs, mi_allocs, tmiRunCnt, miRunCnt]
+
+/-- the only stores into the symbol arrays are the two branches of the binning (whose values are
+in `[0, n_bins)` by `symbolX_in_range`), and nothing else is written through a pointer than
+counters, the 2-d histogram reset and the result -/
+theorem run_stores_census :
+    tmi_stores = [("symbolic_original", "= (int) (rescaled * n_bins)"),
+                  ("symbolic_original", "= n_bins - 1"), ("hist_original", "++"),
+                  ("symbolic_surrogates", "= (int) (rescaled * n_bins)"),
+                  ("symbolic_surrogates", "= n_bins - 1"), ("hist_surrogates", "++"),
+                  ("hist2d", "++"), ("mi", "+= (float) (plm * log(plm/hpm/hpl))"), ("hist2d", "= 0")]
+    ∧ mi_stores = [("symbolic", "= (long) (rescaled * n_bins)"), ("symbolic", "= n_bins - 1"),
+                   ("hist", "++"), ("hist2d", "++"), ("mi", "+= (float) (plm * log(plm/hpm/hpl))"),
+                   ("mi", "= *p_mi"), ("hist2d", "= 0")]
+    ∧ tmi_run_symbols = ["s_p_symbolic_original", "s_p_symbolic_surrogates"]
+    ∧ mi_run_symbols = ["s_p_symbolic", "s_p_symbolic1", "s_p_symbolic2"] := by
+  refine ⟨by decide, by decide, by decide, by decide⟩
+
+/-- non-vacuity: 32 / 27 sites; sharpness: a bin number `n_bins` (one too large) leaves `hist2d` -/
+example : (tmi_run_sites 2 3 4 1 2 0 3 3 3 3).length = 32
+    ∧ (mi_run_sites 3 2 4 1 2 0 3 3 3 3 3).length = 27 := by decide
+example : ¬ (∀ s ∈ tmi_run_sites 2 3 4 1 2 0 3 3 4 3, s.guard →
+    siteFine s (tmiRunCnt 2 3 4 s.arr)) := by
+  intro h
+  have := h ⟨0, "hist2d", 64, ((4 * 4) + 3), [((4 * 4) + 3)],
+    (0 ≤ (1:Int) ∧ (1:Int) < 2) ∧ (0 ≤ (0:Int) ∧ (0:Int) < 2) ∧ (0 ≤ (2:Int) ∧ (2:Int) < 3)⟩
+    (by simp [tmi_run_sites]) (by decide)
+  simp [siteFine, tmiRunCnt] at this
+
+end Pyunicorn.Access
+
+/-! # Round 5: `_nsi_betweenness` — the breadth-first queue and the predecessor lists
+
+The largest group of data-dependent subscripts left to Cython's bounds check after round 4
+(`queue[queue_len]`, `flat_predecessors[offsets[l] + n_predecessors[l]]`, `flat_neighbors[l_index]`,
+`distances_to_j[l]`, `betweenness_to_j[flat_predecessors[fi]]`, …).  `Model/NsiIdx.lean` evaluates
+every subscript of the kernel as a checked read / write (`none` = IndexError); `csrOK` is the
+contract on what `Network._nsi_betweenness` passes, stated on the offsets the kernel computes. -/
+namespace Pyunicorn.NsiIdx
+
+/-- **`_nsi_betweenness` raises no IndexError** — every subscript it evaluates (the breadth-first
+queue, the predecessor lists, the distance / multiplicity / betweenness arrays, the caller's `w`,
+`k`, `flat_neighbors`, `is_source`) is inside its array — for every CSR adjacency that satisfies the
+contract `csrOK`, for all `N`, all graphs and all target lists -/
+theorem nsiBetwIdx_ok (N : Nat) (k nbr : List Nat) (wlen slen : Nat) (targets : List Nat)
+    (h : csrOK N k nbr wlen slen targets = true) :
+    nsiBetwIdx N k nbr wlen slen targets = some () := by
+  unfold csrOK at h
+  split at h
+  · cases h
+  · rename_i off hoff
+    simp only [Bool.and_eq_true, decide_eq_true_eq, List.all_eq_true, List.mem_range] at h
+    obtain ⟨⟨⟨⟨⟨⟨⟨h1, h2⟩, h3⟩, h4⟩, h5⟩, h6⟩, h7⟩, h8⟩ := h
+    have hc : COK ⟨N, off, k, nbr, wlen⟩ := ⟨h1, h2, h3, h6, h7, h8⟩
+    simp only [nsiBetwIdx, hoff, Option.bind_eq_bind, Option.bind_some]
+    apply allOk_ok
+    intro j hj
+    exact target_ok ⟨N, off, k, nbr, wlen⟩ hc slen j h4 (h5 j hj)
+
+/-- in particular no outcome `none` (IndexError) under the contract -/
+theorem nsiBetwIdx_never_raises (N : Nat) (k nbr : List Nat) (wlen slen : Nat) (targets : List Nat)
+    (h : csrOK N k nbr wlen slen targets = true) :
+    nsiBetwIdx N k nbr wlen slen targets ≠ none := by
+  rw [nsiBetwIdx_ok N k nbr wlen slen targets h]; simp
+
+/-- non-vacuity: the path 0 – 1 – 2 and the triangle with a pendant node satisfy the contract and
+the model runs through; sharpness: a directed link into a node without out-links (`0 → 2`) makes
+`flat_predecessors[offsets[2] + 0]` leave the array, a neighbour entry `N`, a degree entry that
+overstates a row, a target `N` and a weight array one short raise as well — and fail the contract -/
+example : csrOK 3 [1, 2, 1] [1, 0, 2, 1] 3 3 [0, 1, 2] = true
+    ∧ nsiBetwIdx 3 [1, 2, 1] [1, 0, 2, 1] 3 3 [0, 1, 2] = some ()
+    ∧ csrOK 4 [2, 2, 3, 1] [1, 2, 0, 2, 0, 1, 3, 2] 4 4 [3, 0] = true
+    ∧ nsiBetwIdx 4 [2, 2, 3, 1] [1, 2, 0, 2, 0, 1, 3, 2] 4 4 [3, 0] = some () := by decide +kernel
+example : nsiBetwIdx 3 [1, 0, 0] [2] 3 3 [0] = none ∧ csrOK 3 [1, 0, 0] [2] 3 3 [0] = false
+    ∧ nsiBetwIdx 3 [1, 2, 1] [1, 0, 3, 1] 3 3 [0] = none
+    ∧ nsiBetwIdx 3 [1, 2, 2] [1, 0, 2, 1] 3 3 [0] = none
+    ∧ nsiBetwIdx 3 [1, 2, 1] [1, 0, 2, 1] 3 3 [3] = none
+    ∧ nsiBetwIdx 3 [1, 2, 1] [1, 0, 2, 1] 2 3 [0] = none := by decide +kernel
+
+end Pyunicorn.NsiIdx
